@@ -157,6 +157,14 @@ def cases(ctx):
             k += 1
             if ctx.mine(k):
                 yield {"kind": "direct", "angle": a, "tol": tol}
+    # large angles in the decades where the rounding of a plain float reduction (2.4e-16 per turn) comes close to the tolerance that
+    # was asked for: |angle| = tol * 10^(14 .. 17.5), both signs (an error budget that is spent twice shows only here)
+    for tol in TOLS[:6]:
+        for _ in range(ctx.n(12, 3000)):
+            k += 1
+            a_ = ctx.rng.choice([-1, 1]) * tol * 10 ** ctx.rng.uniform(14, 17.5)
+            if ctx.mine(k):
+                yield {"kind": "direct", "angle": a_, "tol": tol, "family": "large-relative-to-tolerance"}
     # the same angle asked for several times in one process, at tolerances that come close to each other, looser first / stricter
     # first: every answer meets the tolerance it was asked for
     for i, a in enumerate(_angles(ctx, ctx.n(400, 40000) * ctx.nshards)):
